@@ -229,7 +229,36 @@ def r4(ctx):
         ok2 = bool(te_err) and not any(x in b.reachable(e[1]) for e in te_err for x in wf)
         ctx.inst(R, "exec_write:guards", ok and ok2, b.span, "write happens only after the io-error draw and the capacity check passed" if ok and ok2 else
                  "exec_write can write despite an injected I/O error or a failed capacity check")
-    ctx.floor(R, 7)
+    # the amount charged against the capacity is computed the same way by both siblings
+    shapes = {}
+    for fid in ("turmoil_io_uring::sim::exec_write", "turmoil_fs::shim::std::fs::File::write_at_internal"):
+        for fb in (ctx.w.family(fid) if fid in ctx.w.bodies else []):
+            for bb, t in fb.calls("turmoil_fs::Fs::check_space"):
+                shapes[fid] = (expr_shape(fb, t["args"][1]), t["s"])
+    if len(shapes) == 2:
+        (sa, site), (sb, _) = shapes["turmoil_io_uring::sim::exec_write"], shapes["turmoil_fs::shim::std::fs::File::write_at_internal"]
+        ctx.inst(R, "exec_write~write_at_internal:space-charged", sa == sb, site, f"both charge {shape_str(sa)}" if sa == sb else
+                 f"the ring write charges {shape_str(sa)} against the capacity, the file API charges {shape_str(sb)}: the same write succeeds through one API and fails with ENOSPC through the other")
+    elif ctx.strict:
+        ctx.bad(R, "exec_write~write_at_internal:space-charged", "", "check_space call not found in one of the siblings")
+    # page-cache probe: hit / miss is decided before the page is inserted, in the ring scheduler as in the tokio shim
+    n = 0
+    for b in sorted(ctx.w.bodies.values(), key=lambda b: b.id):
+        if b.crate not in ("turmoil_fs", "turmoil_io_uring") or "::tests::" in b.id or b.id.startswith("turmoil_fs::page_cache"):
+            continue
+        acc = [bb for bb, t in b.calls(re.compile(r"PageCache::access$"))]
+        ins = [bb for bb, t in b.calls(re.compile(r"PageCache::insert$"))]
+        for a in acc:
+            n += 1
+            root = b
+            while root.parent and root.parent in ctx.w.bodies:
+                root = ctx.w.bodies[root.parent]
+            before = [i for i in ins if i != a and b.dominated_by_block(a, i)]
+            # an insert that can flow into the probe (and is not simply the same loop iteration's later insert) decides the probe
+            ok = not before
+            ctx.inst(R, f"page-cache-probe:{root.id}#{n}", ok, b.term(a)["s"], "cold / warm is decided before the page is inserted" if ok else
+                     f"`{root.id}` inserts the page before probing the cache: a cold read always counts as a hit and completes without the disk latency")
+    ctx.floor(R, 10)
 
 
 def r5(ctx):
